@@ -118,6 +118,26 @@ def build_lineage(ex):
 roundtrip_contract('lineage', 'LineageModel', build_lineage, 'initialised')
 
 
+def build_lineage_full(ex):
+    """a lineage model with a growth event, a division rule with its splitter and a death event"""
+    m = build_lineage(ex)
+    P = ex.program
+    call = lambda name, args: ex.call_method(m, P.find_method(m.cls, name), args, {})
+    call('create_volume_event', ['linear volume', {'growth_rate': 1.0}, 'massaction', {'k': 1.2, 'species': ''}])
+    vs = ex.instantiate(P.find_class('LineageVolumeSplitter'), [m], dict(options={'default': 'binomial', 'A': 'perfect', 'B': 'duplicate'}))
+    call('create_division_rule', ['deltaV', {'threshold': 1.0}, vs])
+    call('create_death_event', ['death', {}, 'massaction', {'k': 0.1, 'species': ''}])
+    vs2 = ex.instantiate(P.find_class('LineageVolumeSplitter'), [m], dict(options={'default': 'perfect', 'volume': 'perfect'}))
+    call('create_division_event', ['division', {}, 'massaction', {'k': 0.05, 'species': ''}, vs2])
+    call('create_volume_rule', ['linear', {'growth_rate': 0.5}])
+    call('create_death_rule', ['species', {'specie': 'A', 'threshold': 50, 'comp': '>'}])
+    call('py_initialize', [])
+    return m
+
+
+roundtrip_contract('lineage', 'LineageModel', build_lineage_full, 'with-growth-division-death')
+
+
 # n-ary expression nodes: __reduce__ -> restore_binary_term
 def binary_term_contract(clsname):
     c = Contract('types', 'restore_binary_term', ['C17'], variant=clsname)
